@@ -346,3 +346,58 @@ jAGGiQIwHFj+dJZYUJR786osByBelJYsVZd2GbHQu209b5RCmGQ21gpSAk9QZW4B
         assert_eq!(rap.webauthn_att_ca_list, Some(att_ca_list_ex));
     }
 }
+
+// ---------------------------------------------------------------------------
+// verif-hooks (C35): add-only accessors so that the external verification
+// harness can build an `AccountPolicy` from plain values and read one back.
+// Behaviour neutral; only compiled with `--features verif-hooks`.
+#[cfg(feature = "verif-hooks")]
+impl AccountPolicy {
+    #[allow(clippy::too_many_arguments)]
+    pub(crate) fn verif_new(
+        privilege_expiry: u32,
+        authsession_expiry: u32,
+        pw_min_length: u32,
+        credential_policy: CredentialType,
+        webauthn_att_ca_list: Option<AttestationCaList>,
+        limit_search_max_filter_test: Option<u64>,
+        limit_search_max_results: Option<u64>,
+        allow_primary_cred_fallback: Option<bool>,
+    ) -> Self {
+        AccountPolicy {
+            privilege_expiry,
+            authsession_expiry,
+            pw_min_length,
+            credential_policy,
+            webauthn_att_ca_list,
+            limit_search_max_filter_test,
+            limit_search_max_results,
+            allow_primary_cred_fallback,
+        }
+    }
+
+    #[allow(clippy::type_complexity)]
+    pub(crate) fn verif_parts(
+        &self,
+    ) -> (
+        u32,
+        u32,
+        u32,
+        CredentialType,
+        Option<&AttestationCaList>,
+        Option<u64>,
+        Option<u64>,
+        Option<bool>,
+    ) {
+        (
+            self.privilege_expiry,
+            self.authsession_expiry,
+            self.pw_min_length,
+            self.credential_policy,
+            self.webauthn_att_ca_list.as_ref(),
+            self.limit_search_max_filter_test,
+            self.limit_search_max_results,
+            self.allow_primary_cred_fallback,
+        )
+    }
+}
